@@ -3,6 +3,7 @@ CONSTANTS
   MaxRestarts = 3
   MaxReq = 3
   Urls = {"a", "b"}
+  JailChoices = {FALSE, TRUE}
   Statuses = {200, 500}
   KCover = 0
 INVARIANTS
@@ -12,6 +13,7 @@ INVARIANTS
   PathOK
   FirstRequestMisses
   CounterPersists
+  JailPersists
   HitIffStored
   ReportTruthful
   EmitEndInv
